@@ -132,6 +132,9 @@ func runOpt1(m *Model, r *RuleResult) {
 			}
 		}
 		if ephi == nil {
+			if opt1StepForm(m, r, f, pivotLoop, key, pos, ctl) {
+				continue
+			}
 			r.add(Obligation{Key: key + ":runs-while-leave-edge", Pos: pos, Desc: "the pivot loop runs while a leave edge exists", Verdict: "violation", Detail: "the loop condition is not `leaveEdge != nil`", Control: ctl})
 			continue
 		}
@@ -774,4 +777,123 @@ func runTight1(m *Model, r *RuleResult) {
 			}
 		})
 	}
+}
+
+// opt1StepForm: the pivot loop calls a step function `pivot(g) bool` and stops when it reports false. The step selects the
+// leave edge from g.Edges itself; it may report false only when the leave-edge selector (or the enter-edge selector) returned
+// nil, and true only after the exchange. Returns false when the loop is not of this form.
+func opt1StepForm(m *Model, r *RuleResult, f *ssa.Function, l *loopInfo, key, pos string, ctl bool) bool {
+	// the step: a bool-returning module callee in the loop whose result decides an exit
+	var step *ssa.Function
+	for b := range l.Body {
+		iff, ok := b.Instrs[len(b.Instrs)-1].(*ssa.If)
+		if !ok || (l.Body[b.Succs[0]] && l.Body[b.Succs[1]]) {
+			continue
+		}
+		c := iff.Cond
+		neg := false
+		if u, ok := c.(*ssa.UnOp); ok && u.Op == token.NOT {
+			c, neg = u.X, true
+		}
+		call, ok := c.(*ssa.Call)
+		if !ok || call.Call.StaticCallee() == nil || !inModule(call.Call.StaticCallee()) {
+			continue
+		}
+		// the loop is left when the step returns false
+		exitOnFalse := (!neg && !l.Body[b.Succs[1]]) || (neg && !l.Body[b.Succs[0]])
+		e := m.effects[call.Call.StaticCallee()]
+		if exitOnFalse && e != nil && e.Mod[igEdge+".IsInSpanningTree"] && e.Mod[igNode+".Layer"] {
+			step = call.Call.StaticCallee()
+		}
+	}
+	if step == nil {
+		return false
+	}
+	isEdgeSel := func(c *ssa.Function) bool {
+		return c != nil && sliceParamOf(c) != nil && c.Signature.Results().Len() == 1 && namedKey(c.Signature.Results().At(0).Type()) == igEdge
+	}
+	var selCalls []*ssa.Call
+	eachInstr(step, func(in ssa.Instruction) {
+		if call, ok := in.(*ssa.Call); ok && isEdgeSel(call.Call.StaticCallee()) {
+			selCalls = append(selCalls, call)
+		}
+	})
+	if len(selCalls) != 2 {
+		r.add(Obligation{Key: key + ":runs-while-leave-edge", Pos: pos, Desc: "the pivot step selects a leave edge and an enter edge", Verdict: "violation",
+			Detail: fmt.Sprintf("%d edge selectors are called in %s, expected the leave-edge and the enter-edge selector", len(selCalls), funcKey(step)), Control: ctl})
+		return true
+	}
+	// leave selector: the one whose result is an argument of the other
+	leave, enter := selCalls[0], selCalls[1]
+	usesOther := func(a, b *ssa.Call) bool {
+		for _, x := range a.Call.Args {
+			if x == ssa.Value(b) {
+				return true
+			}
+		}
+		return false
+	}
+	if usesOther(leave, enter) {
+		leave, enter = enter, leave
+	}
+	// every `return false` is guarded by a nil test of one of the two selections; `return true` follows the exchange
+	var bad []string
+	nFalse := 0
+	eachInstr(step, func(in ssa.Instruction) {
+		ret, ok := in.(*ssa.Return)
+		if !ok || len(ret.Results) != 1 {
+			return
+		}
+		c, isC := ret.Results[0].(*ssa.Const)
+		if !isC {
+			bad = append(bad, "the step's result at "+m.Pos(ret.Pos())+" is not a constant")
+			return
+		}
+		if isConstBool(c, false) {
+			nFalse++
+			okGuard := false
+			for _, d := range controlDeps(ret.Block()) {
+				bo, ok := d.If.Cond.(*ssa.BinOp)
+				if !ok {
+					continue
+				}
+				k, isK := bo.Y.(*ssa.Const)
+				if !isK || k.Value != nil {
+					continue
+				}
+				isNilBranch := (bo.Op == token.EQL && d.Branch == 0) || (bo.Op == token.NEQ && d.Branch == 1)
+				if isNilBranch && (bo.X == ssa.Value(leave) || bo.X == ssa.Value(enter)) {
+					okGuard = true
+				}
+			}
+			if !okGuard {
+				bad = append(bad, "the step reports \"stop\" at "+m.Pos(ret.Pos())+" although the leave-edge selector may have returned an edge")
+			}
+		}
+	})
+	if nFalse == 0 {
+		bad = append(bad, "the step never reports \"stop\"")
+	}
+	if len(bad) == 0 {
+		r.add(Obligation{Key: key + ":runs-while-leave-edge", Pos: pos, Desc: "the pivot loop stops (budget aside) only when the step finds no leave edge (or no enter edge)", Verdict: "holds", Control: ctl})
+	} else {
+		r.add(Obligation{Key: key + ":runs-while-leave-edge", Pos: pos, Desc: "the pivot loop may stop only when no leave edge exists", Verdict: "violation", Detail: strings.Join(uniq(bad), "; "), Control: ctl})
+	}
+	// the leave edge is selected from the whole edge list in every step
+	okList := false
+	for _, a := range leave.Call.Args {
+		for _, o := range originsOf(a, 0) {
+			if o.Kind == "fieldload" && o.Loc == igDG+".Edges" {
+				okList = true
+			}
+		}
+	}
+	if okList {
+		r.add(Obligation{Key: key + ":leave-edge-source", Pos: pos, Desc: "every step selects the leave edge from g.Edges with the same selector", Verdict: "holds", Control: ctl})
+	} else {
+		r.add(Obligation{Key: key + ":leave-edge-source", Pos: pos, Desc: "the leave edge must be re-selected from the whole edge list in every step", Verdict: "violation", Detail: "the selector is not applied to g.Edges", Control: ctl})
+	}
+	checkLeaveSelector(m, r, leave.Call.StaticCallee(), ctl)
+	checkEnterSelector(m, r, enter.Call.StaticCallee(), ctl)
+	return true
 }
